@@ -131,7 +131,7 @@ NOT_APPLICABLE[:] = [e for e in NOT_APPLICABLE if e["property_id"] not in CHECKS
 CHECKS["C05"] = {
     "test": "TestC05",
     "quick": {"shards": 8, "checks": 6000},
-    "thorough": {"shards": 16, "checks": 12000},
+    "thorough": {"shards": 16, "checks": 8000},
     "rule": "a generated history (with Prune requests to the partial forest; partial forest 'direct' in half of the cases: Modify without Verify(remember) when the deleted leaves are already cached) builds the state in Stump, Pollard, a full and a partial MapPollard (generated TotalRows) and a light client's cached proof; "
             "then one block deletes a generated live target set (shapes as in C02) whose proof is encoded as: canonical / targets+hashes permuted in parallel / "
             "1-3 junk hashes appended / assembled by AddProof from two (possibly overlapping) honest proofs / cut by GetProofSubset from a larger honest proof / "
@@ -194,7 +194,7 @@ MANIFEST_TEXT["C07"] = {
 CHECKS["C11"] = {
     "test": "TestC11",
     "quick": {"shards": 8, "checks": 12000},
-    "thorough": {"shards": 16, "checks": 12000},
+    "thorough": {"shards": 16, "checks": 8000},
     "rule": "block histories as in C07 through Stump.Update; after every successful update the returned UpdateData is compared field by field with values derived "
             "from the reference model only: PrevNumLeaves; ToDestroy (empty trees popped by the binary addition, post-block layout, destruction order); "
             "NewDelPos/NewDelHash (every pre-block node on a target->root path, ascending, with the compressed hash of what survives under it, zero if nothing); "
@@ -306,7 +306,7 @@ NOT_APPLICABLE[:] = [e for e in NOT_APPLICABLE if e["property_id"] not in CHECKS
 CHECKS["C14"] = {
     "test": "TestC14",
     "quick": {"shards": 8, "checks": 20000},
-    "thorough": {"shards": 16, "checks": 40000},
+    "thorough": {"shards": 16, "checks": 20000},
     "rule": "a rapid-generated step sequence (block / Verify(remember) / Prune / Undo) brings the reference model and a partial MapPollard (generated TotalRows) to a "
             "state; target set A is drawn as in C02 and B with a forced relation to A (free / overlapping / sibling leaves / cousins / other trees / superset / same / "
             "disjoint), both with targets and hashes in a drawn parallel order. Checked against the model: AddProof(A,B) returns the union (each target once, hashes "
